@@ -385,6 +385,11 @@ def t1(ctx):
     for c in CONTRACTS + [TA_ADD]:
         verify_contract(ctx, SUITE, c, sentinels=False, replay=replay_c06.replay_treearray)
     validate_constructor_natively(ctx)
+    # every setting under which node ages are computed (forcing option, tip ages) is handed on wherever a collection builds another one -- from a
+    # list, as a sum a + b -- and down to the distribution that ages the trees
+    from dpvc import forwarding
+    for opt in ("is_force_max_age", "taxon_label_age_map"):
+        forwarding.obligations(ctx, opt, lambda mn: mn == TC, "age-setting-reaches[%s]" % opt, exact=False, native=native_sum_forgets_age_settings)
     from contracts import C05
     for c in SD_UPDATE:
         verify_contract(ctx, SUITE, c, sentinels=False, replay=dreplay.replay_by_search(C05._states))
@@ -395,6 +400,40 @@ def t1(ctx):
                                                    "edge-length / node-age multisets per split: bounded (T2) only",
                          "merge_partition_irrelevant": "as above",
                          "merge_empty_block": "an empty array has the zero view: SplitDistribution.__init__ (T2: idle-worker scope)"})
+
+
+def native_sum_forgets_age_settings(modname=None, qual=None):
+    """two tip-dated collections summed, a third tree added to the sum: the ages recorded are those of one collection holding the three trees"""
+    import dendropy
+    ns = dendropy.TaxonNamespace(["A", "B", "C"])
+    amap = {"A": 0.0, "B": 1.0, "C": 0.0}
+    nws = ["((A:2,B:1):1,C:3);", "((A:3,B:2):1,C:4);", "((A:1,B:0):2,C:3);"]
+    arr = lambda: dendropy.TreeArray(taxon_namespace=ns, is_rooted_trees=True, ignore_node_ages=False, taxon_label_age_map=amap)
+    tree = lambda nw: dendropy.Tree.get(data=nw, schema="newick", taxon_namespace=ns, rooting="force-rooted")
+    ref = arr()
+    for nw in nws:
+        ref.add_tree(tree(nw))
+    want = dict(ref._split_distribution.split_node_ages)
+    routes = []
+    a, b = arr(), arr()
+    a.add_tree(tree(nws[0]))
+    b.add_tree(tree(nws[1]))
+    routes.append(("(a + b).add_tree(t)", lambda: a + b))
+    tl = dendropy.TreeList(taxon_namespace=ns)
+    tl.append(tree(nws[0]))
+    tl.append(tree(nws[1]))
+    routes.append(("TreeArray.from_tree_list(..).add_tree(t)", lambda: dendropy.TreeArray.from_tree_list(tl, ignore_node_ages=False, taxon_label_age_map=amap)))
+    routes.append(("TreeList.as_tree_array(..).add_tree(t)", lambda: tl.as_tree_array(ignore_node_ages=False, taxon_label_age_map=amap)))
+    for name, f in routes:
+        try:
+            s = f()
+            s.add_tree(tree(nws[2]))
+            got = dict(s._split_distribution.split_node_ages)
+        except Exception as e:  # noqa
+            return dict(key=name, outcome="%s on tip-dated collections (B sampled at age 1): %s: %s" % (name, type(e).__name__, str(e).split("\n")[0][:120]))
+        if got != want:
+            return dict(key=name, outcome="%s records the node ages %r; one collection holding the three trees records %r" % (name, got, want))
+    return None
 
 
 def validate_constructor_natively(ctx):
@@ -432,5 +471,9 @@ def validate_constructor_natively(ctx):
 
 
 def replay(ctx, rec):
+    if str(rec.get("obligation", "")).startswith("age-setting-reaches"):
+        w = native_sum_forgets_age_settings()
+        print(w or "a sum / a collection made from a list ages further trees under the operands' settings on the probe")
+        return w is None
     from dpvc import replay_c06
     return replay_c06.replay_record(ctx, rec)
